@@ -941,18 +941,25 @@ def _group_ops(lines):
     return groups
 
 
-def _is_panic(r_line):
+# Results after which both programs abandon the history (no O lines, no further operations):
+# `panic` (FORMAT.md), and `abort` / `timeout`, which `harness --isolate` prints for the operation
+# that killed / hung the per-history child process (harness/README.md "Isolation").
+ABANDON_RESULTS = ("panic", "abort", "timeout")
+
+
+def _is_abandoned(r_line):
     words = r_line.split(" ")
-    return len(words) == 3 and words[2] == "panic"
+    return len(words) == 3 and words[2] in ABANDON_RESULTS
 
 
 def check_trace(history, trace_lines):
     """Compare the trace of one history (lines of a harness / model-driver trace; S/M/I/F/C
     lines are ignored, an `H` line is checked when present) against the prediction.
 
-    Returns the list of Mismatch(op, op_text, predicted, actual).  A `panic` result is always a
-    mismatch (the reference never predicts one) and ends the comparison of the history, since
-    the history is abandoned there.  `H <idx> unsupported` (configuration not compiled into the
+    Returns the list of Mismatch(op, op_text, predicted, actual).  A `panic` result (likewise
+    `abort` / `timeout` from `harness --isolate`) is always a mismatch, even against `?` (the
+    reference never predicts one), and ends the comparison of the history, since the history
+    is abandoned there.  `H <idx> unsupported` (configuration not compiled into the
     harness) yields no mismatch.  Comparison also stops where the reference gave up."""
     lines = [ln.rstrip("\n") for ln in trace_lines]
     lines = [ln for ln in lines if ln != ""]
@@ -974,7 +981,7 @@ def check_trace(history, trace_lines):
         actual_r, actual_os = actual_groups[index]
         if actual_r is None:
             mismatches.append(Mismatch(op.n, op.op_text, op.r_line, None))
-        elif _is_panic(actual_r):
+        elif _is_abandoned(actual_r):
             mismatches.append(Mismatch(op.n, op.op_text, op.r_line, actual_r))
             return mismatches
         elif not match_line(op.r_line, actual_r):
